@@ -132,6 +132,8 @@ class Universe(object):
         self.persist = None  # (hook, label, from_index)
         self.faults = []
         self.snapfn = None
+        self.reenter = None
+        self.reentered = []
         CUR[0] = self
         cls = classes()
         for lbl, ck in zip(self.labels, self.ckeys):
@@ -194,12 +196,22 @@ class Universe(object):
             self.log.append((name, nl, al, self.snapfn()))
         else:
             self.log.append((name, nl, al))
+        if self.reenter and i in self.reenter:
+            # a hook that changes the tree itself (re-entrant call) instead of raising
+            op = self.reenter[i]
+            self.reentered.append(i)
+            try:
+                self.apply(op)
+            except Exception:  # noqa - a refused re-entrant call is simply refused
+                pass
         p = self.persist
         if i in self.raise_at or (p is not None and i >= p[2] and name == p[0] and nl == p[1]):
             self.faults.append(i)
             raise fault_class()("%s(%s) #%d" % (name, nl, i))
 
-    def arm(self, raise_at=(), persist=None, snap=False):
+    def arm(self, raise_at=(), persist=None, snap=False, reenter=None):
+        self.reenter = dict(reenter) if reenter else None
+        self.reentered = []
         self.log = []
         self.k = 0
         self.faults = []
@@ -391,13 +403,13 @@ def rebuild(kind, n, witness):
     return u
 
 
-def execute(kind, n, witness, op, pre=None, raise_at=(), persist=None, snap=False):
+def execute(kind, n, witness, op, pre=None, raise_at=(), persist=None, snap=False, reenter=None):
     u = rebuild(kind, n, witness)
     ex = Exec()
     ex.kind, ex.n, ex.op, ex.raise_at, ex.persist, ex.u = kind, n, op, tuple(raise_at), persist, u
     ex.hid_pre = u.hidden()
     ex.pre = pre
-    u.arm(raise_at, persist, snap)
+    u.arm(raise_at, persist, snap, reenter)
     ex.exc = None
     ex.mro = ()
     try:
@@ -410,6 +422,7 @@ def execute(kind, n, witness, op, pre=None, raise_at=(), persist=None, snap=Fals
     u.raise_at = frozenset()
     u.persist = None
     u.snapfn = None
+    u.reenter = None
     ex.faults = tuple(u.faults)
     ex.log = u.log
     u.log = []
@@ -558,7 +571,7 @@ def probe_initial(kind, n, hidden):
 # Fault-plan enumeration for one (state, op): default run, then deviations up to d, then persistent
 
 
-def runs(kind, n, witness, pre, op, d=0, persistent=(), snap=False, want=None):
+def runs(kind, n, witness, pre, op, d=0, persistent=(), snap=False, want=None, reenter_menu=None):
     """Yield Exec objects: the fault-free run, all runs with <= d one-shot hook exceptions (each
     deviation chosen among the hook invocations of the run it extends), and the persistent runs.
     `want(hookname, position)` may restrict which hooks are eligible as the FIRST deviation."""
@@ -585,6 +598,13 @@ def runs(kind, n, witness, pre, op, d=0, persistent=(), snap=False, want=None):
         if rec[0] in persistent:
             ex = execute(kind, n, witness, op, pre, persist=(rec[0], rec[1], i), snap=snap)
             yield ex
+    if reenter_menu:
+        # a hook that itself issues a structural call (here: detaches some node) at invocation i
+        for i in range(len(ex0.log)):
+            for r in reenter_menu:
+                ex = execute(kind, n, witness, op, pre, snap=snap, reenter={i: r})
+                ex.raise_at = ("reenter", i) + tuple(r)
+                yield ex
 
 
 def check_witness(kind, n, witness, key, hidden):
@@ -674,7 +694,8 @@ def case_of(ex, witness, why=None):
         "n": ex.n,
         "witness": [list(w) for w in witness],
         "op": list(ex.op),
-        "raise_at": list(ex.raise_at),
+        "raise_at": list(ex.raise_at) if not (ex.raise_at and ex.raise_at[0] == "reenter") else [],
+        "reenter": list(ex.raise_at) if (ex.raise_at and ex.raise_at[0] == "reenter") else None,
         "persistent": list(ex.persist) if ex.persist else None,
         "pre": fmt_state(ex.pre, ex.labels[: len(ex.pre)]) if ex.pre is not None else None,
         "observed": {
